@@ -13,15 +13,17 @@ JUNK = ["garbage", "%%%", "2024-13-45", "2024-01-01T25:00:00", " orphan:posting 
         "2024-01-01\n # uuid: zz\n a 1\n b", "2024-01-01\n # location: geo:91,0\n a 1\n b", "2024-01-01\n # tags: a, a\n a 1\n b"]
 
 
-def child_limits():
-    resource.setrlimit(resource.RLIMIT_AS, (6 << 30, 6 << 30))
+def child_limits(gib=6):
+    def f():
+        resource.setrlimit(resource.RLIMIT_AS, (gib << 30, gib << 30))
+    return f
 
 
-def run_one(req, timeout=20):
+def run_one(req, timeout=20, gib=6):
     """one request in its own process with a watchdog and an address-space limit"""
     try:
         p = subprocess.run([HARNESS_BIN, os.path.join(CACHE, "tmp")], input=json.dumps(req) + "\n", capture_output=True, text=True,
-                           timeout=timeout, preexec_fn=child_limits)
+                           timeout=timeout, preexec_fn=child_limits(gib))
     except subprocess.TimeoutExpired:
         return {"stage": "timeout"}
     ls = [l for l in p.stdout.split("\n") if l.strip()]
@@ -128,11 +130,13 @@ def main(run):
             run.cov["samples"].append({"kind": kind, "input": text[:600], "outcome": st})
     # ---- stream 4: heavy inputs one per process under a watchdog (recursion depth, memory)
     heavy = []
-    depth_cases = [2000] if quick else [2000, 4000]
+    # 30000 components overflowed the stack before the repair of F11 (a243d01; threshold here between 27000 and
+    # 30000); memory is quadratic in the depth (F24): 30000 components need 2.6 GiB, 40000 about 4.7 GiB
+    depth_cases = [2000, 30000] if quick else [2000, 4000, 30000, 40000]
     for dpt in depth_cases:
         heavy.append(("deep-account-%d" % dpt, "2024-01-01\n " + ":".join(["a"] * dpt) + "  1\n b\n"))
     for name, text in heavy:
-        rr = run_one({"conf": {"toml": toml}, "inputs": [{"text": text}], "ops": [{"op": "txns"}]}, timeout=60)
+        rr = run_one({"conf": {"toml": toml}, "inputs": [{"text": text}], "ops": [{"op": "txns"}]}, timeout=180)
         run.cov["evaluations"] += 1
         st = rr.get("stage")
         classes[("heavy", st)] = classes.get(("heavy", st), 0) + 1
@@ -140,10 +144,12 @@ def main(run):
             run.violation("loading ended in %s instead of a transaction set or an error" % st, {"input": name, "outcome": rr})
     # open known findings: replay their witnesses
     for f in findings:
-        if f.get("class") == "account_depth":
+        if f.get("class") == "account_depth_memory":
+            # memory quadratic in the number of components: the witness needs about 2.6 GiB; under a 1 GiB
+            # address-space limit the allocation failure (abort) is reached within seconds
             dpt = int(f.get("witness_depth", 30000))
             text = "2024-01-01\n " + ":".join(["a"] * dpt) + "  1\n b\n"
-            rr = run_one({"conf": {"toml": toml}, "inputs": [{"text": text}], "ops": [{"op": "txns"}]}, timeout=120)
+            rr = run_one({"conf": {"toml": toml}, "inputs": [{"text": text}], "ops": [{"op": "txns"}]}, timeout=180, gib=int(f.get("witness_limit_gib", 1)))
             if rr.get("stage") in ("abort", "panic", "timeout"):
                 run.known_finding(f["what"])
             else:
